@@ -533,7 +533,9 @@ func (g *c14Gen) next() c14Op {
 	if g.cfg.allowStaleSuffix && last >= commit+2 {
 		cands = append(cands, cand{25, "install-stale-suffix"})
 	}
-	if applied > 0 {
+	// ReplaceSnapshot behind the current snapshot is refused inside the write
+	// worker and therefore fails the whole group flush: a fault-family call.
+	if applied > 0 && (applied >= snapIdx || g.cfg.allowFault) {
 		cands = append(cands, cand{3, "replace"})
 	}
 	if snapIdx > 0 {
